@@ -14,7 +14,8 @@ Inside functions:
   set, frozenset, dict)                         ->  list comprehension
 * keywords naming the leading parameters of a callee of the same module / class  ->  positional arguments
 * conditional expression with a negative test  ->  positive test, arms swapped
-* `return a if c else b`, `x = a if c else b`  ->  if / else statements
+* `return a if c else b`, `x = a if c else b`, `f(a if c else b)` as a statement  ->  if / else statements;
+  `if c: x = a else: x = b` followed by the only reader of x  ->  that reader in each arm
 * `if <negative test>: A else: B`              ->  `if <positive test>: B else: A`
 * `else` after a branch ending in return / raise / continue / break  ->  hoisted behind the `if`
 * `if c: return` (bare) followed by the rest of a function body, `if c: continue` followed by the rest of a loop body
@@ -385,7 +386,97 @@ class BlockLevel:
                 break
 
     # ---- one statement list
+    def push_return(self, stmts):
+        """`if c: x = a else: x = b` + `return x` (x used nowhere else)  ->  `if c: return a else: return b`"""
+        out = []
+        i = 0
+        loads, stores = None, None
+        while i < len(stmts):
+            st = stmts[i]
+            nxt = stmts[i + 1] if i + 1 < len(stmts) else None
+            if isinstance(st, ast.If) and st.orelse and isinstance(nxt, ast.Return) and isinstance(nxt.value, ast.Name):
+                x = nxt.value.id
+                leaves = []
+
+                def arms(node):
+                    for arm in (node.body, node.orelse):
+                        if len(arm) == 1 and isinstance(arm[0], ast.If) and arm[0].orelse:
+                            if not arms(arm[0]):
+                                return False
+                        elif arm and isinstance(arm[-1], ast.Assign) and len(arm[-1].targets) == 1 and isinstance(arm[-1].targets[0], ast.Name) and arm[-1].targets[0].id == x:
+                            leaves.append(arm)
+                        else:
+                            return False
+                    return True
+
+                if arms(st):
+                    if loads is None:
+                        loads, stores = _loads_stores(self.fn)
+                    if loads.get(x) == 1 and stores.get(x) == len(leaves):
+                        for arm in leaves:
+                            a = arm[-1]
+                            arm[-1] = ast.copy_location(ast.Return(value=a.value), a)
+                        out.append(st)
+                        i += 2
+                        continue
+            out.append(st)
+            i += 1
+        return out
+
+    def push_use(self, stmts):
+        """`if c: x = a else: x = b` followed by `return x` or by a call statement with x as a plain argument, the only reader of x
+        ->  that statement, with a resp. b for x, in each arm"""
+        out = []
+        i = 0
+        loads = stores = None
+        while i < len(stmts):
+            st = stmts[i]
+            nxt = stmts[i + 1] if i + 1 < len(stmts) else None
+            direct = isinstance(nxt, ast.Return) and isinstance(nxt.value, ast.Name)
+            direct = direct or (isinstance(nxt, ast.Expr) and isinstance(nxt.value, ast.Call) and any(isinstance(a, ast.Name) for a in nxt.value.args) and not any(
+                isinstance(n, ast.Name) and isinstance(n.ctx, ast.Load) for a in nxt.value.args if not isinstance(a, ast.Name) for n in ast.walk(a)))
+            if isinstance(st, ast.If) and st.orelse and direct:
+                leaves = []
+
+                def arms(node, x):
+                    for arm in (node.body, node.orelse):
+                        if len(arm) == 1 and isinstance(arm[0], ast.If) and arm[0].orelse:
+                            if not arms(arm[0], x):
+                                return False
+                        elif arm and isinstance(arm[-1], ast.Assign) and len(arm[-1].targets) == 1 and isinstance(arm[-1].targets[0], ast.Name) and (x is None or arm[-1].targets[0].id == x):
+                            leaves.append(arm)
+                        else:
+                            return False
+                    return True
+
+                first = st.body[-1] if st.body else None
+                x = first.targets[0].id if isinstance(first, ast.Assign) and len(first.targets) == 1 and isinstance(first.targets[0], ast.Name) else None
+                if x is not None and arms(st, x):
+                    if loads is None:
+                        loads, stores = _loads_stores(self.fn)
+                    uses = [n for n in ast.walk(nxt) if isinstance(n, ast.Name) and n.id == x and isinstance(n.ctx, ast.Load)]
+                    if loads.get(x) == 1 and len(uses) == 1 and stores.get(x) == len(leaves):
+                        for arm in leaves:
+                            a = arm[-1]
+                            use = copy.deepcopy(nxt)
+                            for n in ast.walk(use):
+                                for field, v in ast.iter_fields(n):
+                                    if isinstance(v, ast.Name) and v.id == x and isinstance(v.ctx, ast.Load):
+                                        setattr(n, field, a.value)
+                                    elif isinstance(v, list):
+                                        for k, e in enumerate(v):
+                                            if isinstance(e, ast.Name) and e.id == x and isinstance(e.ctx, ast.Load):
+                                                v[k] = a.value
+                            arm[-1] = ast.copy_location(use, a)
+                        out.append(st)
+                        i += 2
+                        continue
+            out.append(st)
+            i += 1
+        return out
+
     def block(self, stmts: list, owner, field) -> list:
+        stmts = self.push_use(stmts)
         stmts = self.expand_ifexp(stmts)
         stmts = self.swap_and_hoist(stmts)
         stmts = self.unguard(stmts, owner, field)
@@ -406,6 +497,16 @@ class BlockLevel:
                 a = ast.copy_location(ast.Assign(targets=[st.targets[0]], value=e.body, type_comment=None), st)
                 b = ast.copy_location(ast.Assign(targets=[copy.deepcopy(st.targets[0])], value=e.orelse, type_comment=None), st)
                 out.append(ast.copy_location(ast.If(test=e.test, body=[a], orelse=[b]), st))
+            elif isinstance(st, ast.Expr) and isinstance(st.value, ast.Call) and sum(isinstance(a, ast.IfExp) for a in st.value.args) == 1 and not any(isinstance(k.value, ast.IfExp) for k in st.value.keywords):
+                c = st.value
+                k = next(m for m, a in enumerate(c.args) if isinstance(a, ast.IfExp))
+                e = c.args[k]
+
+                def mk(v):
+                    c2 = ast.Call(func=copy.deepcopy(c.func), args=[copy.deepcopy(a) if m != k else v for m, a in enumerate(c.args)], keywords=copy.deepcopy(c.keywords))
+                    return ast.fix_missing_locations(ast.copy_location(ast.Expr(value=ast.copy_location(c2, c)), st))
+
+                out.append(ast.copy_location(ast.If(test=e.test, body=[mk(e.body)], orelse=[mk(e.orelse)]), st))
             else:
                 out.append(st)
         return out
@@ -916,5 +1017,61 @@ def as_loop(st: ast.stmt):
     for x in out:
         ast.copy_location(x, st)
         ast.fix_missing_locations(x)
+    return out
+
+
+def as_if(st: ast.stmt):
+    """the if / else statement that a conditional value stands for: `x = a if c else b`, `return a if c else b`,
+    `f(.., a if c else b, ..)` as a statement; or None"""
+    def build(make, e):
+        return ast.If(test=e.test, body=[make(e.body)], orelse=[make(e.orelse)])
+
+    new = None
+    if isinstance(st, ast.Assign) and isinstance(st.value, ast.IfExp) and len(st.targets) == 1:
+        new = build(lambda v: ast.Assign(targets=[copy.deepcopy(st.targets[0])], value=v, type_comment=None), st.value)
+    elif isinstance(st, ast.Return) and isinstance(st.value, ast.IfExp):
+        new = build(lambda v: ast.Return(value=v), st.value)
+    elif isinstance(st, ast.Expr) and isinstance(st.value, ast.Call):
+        c = st.value
+        ks = [k for k, a in enumerate(c.args) if isinstance(a, ast.IfExp)]
+        if len(ks) == 1 and not any(isinstance(k.value, ast.IfExp) for k in c.keywords):
+            k = ks[0]
+
+            def make(v):
+                c2 = ast.Call(func=copy.deepcopy(c.func), args=[copy.deepcopy(a) if m != k else v for m, a in enumerate(c.args)], keywords=copy.deepcopy(c.keywords))
+                return ast.Expr(value=c2)
+
+            new = build(make, c.args[k])
+    if new is None:
+        return None
+    ast.copy_location(new, st)
+    for x in ast.walk(new):
+        if not hasattr(x, 'lineno'):
+            ast.copy_location(x, st)
+    ast.fix_missing_locations(new)
+    return new
+
+
+def explicit(stmts: list) -> list:
+    """the statements with conditional values written as if / else and comprehension statements written as loops, recursively:
+    the form read by the interpreters that follow a function statement by statement (record templates, degree typing,
+    closed forms); the patterns work on the normal form itself"""
+    out = []
+    for st in stmts:
+        lp = as_loop(st) if not (isinstance(st, ast.Assign) and isinstance(st.value, (ast.ListComp, ast.DictComp, ast.SetComp))) else None
+        if lp is not None:
+            out.extend(explicit(lp))
+            continue
+        iff = as_if(st)
+        if iff is not None:
+            out.extend(explicit([iff]))
+            continue
+        if isinstance(st, (ast.If, ast.For, ast.While, ast.With, ast.Try)):
+            st = copy.copy(st)
+            for field in ('body', 'orelse', 'finalbody'):
+                v = getattr(st, field, None)
+                if isinstance(v, list) and v and isinstance(v[0], ast.stmt):
+                    setattr(st, field, explicit(v))
+        out.append(st)
     return out
 
